@@ -27,6 +27,8 @@ fn pair_strategy() -> impl Strategy<Value = Pair> {
         4 => (c01::setup_history_strategy(3), c01::errorless_group_strategy(3)).prop_map(|(setup, test)| Pair::Struct { setup, test }),
         1 => (c01::setup_history_strategy(3), c01::group_with_failed_execd_strategy(3)).prop_map(|(setup, test)| Pair::Struct { setup, test }),
         3 => (c01::setup_history_strategy(3), c02::errorless_handle_strategy(3)).prop_map(|(setup, test)| Pair::Trait { setup, test }),
+        // an existing layer WITH an environment, updated by a callback that hands back the env it was given
+        1 => (c01::env_layer_setup_strategy(3), any::<(bool, bool)>()).prop_map(|((name, setup), (b, l))| Pair::Trait { setup, test: c02::inheriting_update_op(name, (b, l, true)) }),
         1 => (c07::plan_strategy(), any::<bool>()).prop_map(|(plan, plan_exists)| Pair::Detect { plan, plan_exists }),
         3 => (
             prop_oneof![1 => Just(vec![]), 2 => c01::errorless_group_strategy(3)],
@@ -74,7 +76,23 @@ fn pair_from_json(v: &Value) -> Pair {
     }
 }
 
-const ERRNOS: [(i32, &str); 3] = [(5, "EIO"), (13, "EACCES"), (28, "ENOSPC")];
+const ERRNOS: [(i32, &str); 4] = [(5, "EIO"), (13, "EACCES"), (28, "ENOSPC"), (2, "ENOENT")];
+
+/// ENOENT is delivered only where it cannot mean "the thing is legitimately absent": at creating/writing opens, mkdir,
+/// symlink, and at read-only opens of files inside an env directory (which the preceding directory listing
+/// named). Deletions, directory listings and reads of optional files (<layer>.toml, store.toml, <platform>/env)
+/// tolerate NotFound by design and are not candidates.
+fn enoent_candidate(call_line: &str) -> bool {
+    let mut it = call_line.splitn(3, ' ');
+    let _n = it.next();
+    let c = it.next().unwrap_or("");
+    let path = it.next().unwrap_or("");
+    match c {
+        "openw" | "creat" | "mkdir" | "symlink" => true,
+        "open" | "openat" => path.contains("/env/") || path.contains("/env.build/") || path.contains("/env.launch/"),
+        _ => false,
+    }
+}
 
 struct RunResult {
     claimed_success: bool,
@@ -191,6 +209,8 @@ fn prepare(pair: &Pair, template: &Path) -> bool {
 }
 
 struct PairOutcome {
+    /// delivered faults by (errno name, call)
+    by_kind: std::collections::BTreeMap<String, u64>,
     runs: u64,
     delivered: u64,
     nontrivial: Vec<u64>,
@@ -206,11 +226,11 @@ struct PairOutcome {
 fn mutating_or_read(call: &str) -> bool {
     // "<n> <call> <path>"
     let c = call.split_whitespace().nth(1).unwrap_or("");
-    matches!(c, "open" | "openat" | "creat" | "read" | "write" | "mkdir" | "unlink" | "rmdir" | "rename" | "chmod" | "symlink" | "readdir" | "opendir")
+    matches!(c, "open" | "openw" | "openat" | "creat" | "read" | "write" | "mkdir" | "unlink" | "rmdir" | "rename" | "chmod" | "symlink" | "readdir" | "opendir")
 }
 
 fn check_pair(scratch: &Path, pair: &Pair, idx: usize) -> PairOutcome {
-    let mut out = PairOutcome { runs: 0, delivered: 0, nontrivial: vec![], reported: 0, harmless: 0, positions: 0, discarded: None, inconclusive: None, fail: None, sample: None };
+    let mut out = PairOutcome { by_kind: Default::default(), runs: 0, delivered: 0, nontrivial: vec![], reported: 0, harmless: 0, positions: 0, discarded: None, inconclusive: None, fail: None, sample: None };
     let base = scratch.join(format!("p{idx}-{:012x}", hash_of(&pair_json(pair).to_string()) & 0xffff_ffff_ffff));
     let template = base.join("template");
     let run_root = base.join("run");
@@ -238,8 +258,15 @@ fn check_pair(scratch: &Path, pair: &Pair, idx: usize) -> PairOutcome {
     out.positions = r0.calls.len();
     'outer: for k in 1..=r0.calls.len() {
         for (errno, ename) in ERRNOS {
+            if errno == 2 && !enoent_candidate(&r0.calls[k - 1]) {
+                continue;
+            }
             let r = execute(pair, &template, &run_root, k, errno);
             out.runs += 1;
+            if errno == 2 && !r.fault.as_deref().is_some_and(enoent_candidate) {
+                // call order differs from the recorded run at this position: not a sound ENOENT site
+                continue;
+            }
             let Some(fault) = &r.fault else {
                 // the k-th call was not reached (e.g. an earlier, differently ordered call sequence) — order may differ
                 // between runs (hash maps), the count must not
@@ -248,6 +275,7 @@ fn check_pair(scratch: &Path, pair: &Pair, idx: usize) -> PairOutcome {
                 continue;
             };
             out.delivered += 1;
+            *out.by_kind.entry(format!("fault:{ename}:{}", fault.split_whitespace().nth(1).unwrap_or("?"))).or_insert(0) += 1;
             if changes_dir && mutating_or_read(fault) {
                 out.nontrivial.push(hash_of(&(pair_json(pair).to_string(), k, errno)));
             }
@@ -279,7 +307,7 @@ fn check_pair(scratch: &Path, pair: &Pair, idx: usize) -> PairOutcome {
 }
 
 pub fn run(ctx: &Ctx) {
-    ctx.set_rule("(prepared state, operation) pairs: struct API (state prepared by a generated build history + lifecycle restore; operation = one cached/uncached request with callbacks deciding keep/delete/replace-metadata, followed by LayerRef writes of metadata/env (4 scopes)/SBOMs/exec.d, in one class after an exec.d write that failed on a missing source file), trait API (handle_layer with create/update/keep/recreate/migrate on the same prepared states), and the real buildpack executable (detect writing a build plan; build reading platform/plan/store, running layer operations and writing launch.toml, store.toml, build/launch SBOMs). Each pair runs in a fresh process under an LD_PRELOAD shim: pass 0 records the sequence of matching libc calls under <layers>, the plan file and <platform> (open/openat/creat, read, write/writev/copy_file_range, mkdir, unlink, rmdir, rename, chmod/fchmod, symlink, opendir/readdir); then for EVERY position k x errno in {EIO, EACCES, ENOSPC} the pair is re-run from the same prepared state with the k-th call failing. Oracle: if the call (or phase) reports success although the fault was delivered, the lstat snapshot of <layers> and the plan file must equal the fault-free run's; a failing phase must have run the error handler exactly once. Non-trivial: fault delivered at a mutating call or data read of a pair whose fault-free run changes the directory; distinct = hash of (pair, k, errno).");
+    ctx.set_rule("(prepared state, operation) pairs: struct API (state prepared by a generated build history + lifecycle restore; operation = one cached/uncached request with callbacks deciding keep/delete/replace-metadata, followed by LayerRef writes of metadata/env (4 scopes)/SBOMs/exec.d, in one class after an exec.d write that failed on a missing source file), trait API (handle_layer with create/update/keep/recreate/migrate on the same prepared states, plus a class where an existing layer with an environment is updated by a callback returning the env it was handed), and the real buildpack executable (detect writing a build plan; build reading platform/plan/store, running layer operations and writing launch.toml, store.toml, build/launch SBOMs). Each pair runs in a fresh process under an LD_PRELOAD shim: pass 0 records the sequence of matching libc calls under <layers>, the plan file and <platform> (open/openat/creat, read, write/writev/copy_file_range, mkdir, unlink, rmdir, rename, chmod/fchmod, symlink, opendir/readdir); then for EVERY position k x errno in {EIO, EACCES, ENOSPC} (and ENOENT at creating/writing opens, mkdir, symlink and at read-only opens inside env directories — not at deletions (incl. the chmod that precedes them), listings or optional files, where NotFound legitimately means absent) the pair is re-run from the same prepared state with the k-th call failing. Oracle: if the call (or phase) reports success although the fault was delivered, the lstat snapshot of <layers> and the plan file must equal the fault-free run's; a failing phase must have run the error handler exactly once. Non-trivial: fault delivered at a mutating call or data read of a pair whose fault-free run changes the directory; distinct = hash of (pair, k, errno).");
     ctx.assume("single faults; stat-family calls are never failed, ENOENT is never injected; close/fsync are not injected; calls made inside glibc without going through an interposable symbol are out of reach");
     ctx.assume("positions are those of the recorded fault-free run; a position that is not reached in a re-run (call order depends on hash-map iteration) is skipped");
     if !shim_path().exists() {
@@ -290,7 +318,7 @@ pub fn run(ctx: &Ctx) {
     for (_p, v) in ctx.regress_files() {
         replay(ctx, "", &v["case"]);
     }
-    let n = ctx.tier.pick(128, 3000);
+    let n = ctx.tier.pick(256, 4000);
     let pairs: Vec<(usize, Pair)> = ctx.generate("pairs", &pair_strategy(), n).into_iter().enumerate().collect();
     let outs = par_map(&pairs, ncpu(), |(i, p)| check_pair(&scratch.path, p, *i));
     for ((_, p), o) in pairs.iter().zip(outs) {
@@ -303,6 +331,9 @@ pub fn run(ctx: &Ctx) {
         });
         ctx.class_n("fault-positions", o.positions as u64);
         ctx.class_n("faults-delivered", o.delivered);
+        for (k, n) in &o.by_kind {
+            ctx.class_n(k, *n);
+        }
         ctx.class_n("outcome:reported-as-error", o.reported);
         ctx.class_n("outcome:success-with-identical-directory", o.harmless);
         for h in o.nontrivial {
